@@ -10,3 +10,46 @@ claim(
     "AST -> exact polynomial normal form (abstract interpretation of table code); label interpretation of the evaluator",
     "DESIGN.md section 3, C06",
 )
+
+claim(
+    "C01", "proof",
+    "The patch test is decided through its classical decomposition (Irons / Strang-Fix), each part a polynomial or rational identity: completeness and true gradient tables of all 19 bases, exactness of the factory's stiffness quadrature on the consistency integrals adj(J).grad N_i of straight-sided elements with symbolic vertices, one Kelvin-Mandel convention across the projection helpers and the strain operator, Hermite completeness to degree 3, and the whole isoparametric chain (Get_F_e_pg, Inv, Get_dN_e_pg, Get_B_e_pg) interpreted at the symbolic reference point reproducing the constant gradient / strain of a linear field. What is decided is this set of necessary-and-jointly-sufficient element-level conditions, not the number returned by simu.Solve().",
+    "Assumes unique solvability (C02), exact scatter-add (C03), exact elimination (C04). Quadrangles/hexahedra/prisms use one generic rational straight-sided geometry in R1.6 (identity in the reference coordinates exact, in the vertex coordinates at a generic point). Trusted: sa/alg.py, sa/xeval.py, sa/xarray.py.",
+    "exact polynomial / rational-function normal forms of the interpreted source (abstract interpretation of table and index code)",
+    "DESIGN.md section 3, C01",
+)
+claim(
+    "C02", "other",
+    "Structural clauses only - the spectrum of an assembled matrix is a run-time quantity and is not decided. Decided: every element operator of Operators/Bilinear.py, interpreted on one element with opaque geometric factors, is the congruence wJ*X^T S X in the interleaved dof layout; the number of Gauss points the factory selects is enough for the rank a two-element patch must reach (counting bound, plus exact rank in Q(sqrt d) of the glued reference patch for every face type, which is invariant under affine maps); factory rules have positive weights; the Timoshenko bending/shear split partitions a diagonal D.",
+    "Assumes SPD constitutive matrices (C11) and wJ > 0. Rank is decided for two-element affine patches only; arbitrary meshes are not decided. Segment rules (Gauss-Legendre) are handled by the counting bound.",
+    "interpretation of operator code on symbolic element data; exact rank over Q / Q(sqrt d); table folding of Gauss_factory",
+    "DESIGN.md section 3, C02",
+)
+claim(
+    "C03", "other",
+    "Index arithmetic of the assembly is decided by interpreting the index-building functions on symbolic node numbers (dof = node*dof_n+comp, rows/cols of flattened element matrices, block layout of N); the cached CSR reduction map is checked structurally (same filtered group tuple for data and map, map reads only its cache key, inv looked up in the map's own pattern, connectivity immutable); (K,C,M,F) slot order is a tuple-order agreement between Assembly, all producers and all unpacking sites.",
+    "numpy/scipy semantics (repeat, reshape, ravel, coo->csr duplicate summation, searchsorted, bincount) are assumed, not verified. Numerical equality with an independent summation is not decided.",
+    "label / symbolic-index interpretation + AST provenance rules",
+    "DESIGN.md section 3, C03",
+)
+claim(
+    "C04", "other",
+    "The elimination solver is interpreted on a block-labelled system: the linear solve receives A[U,U] and b[U]-A[U,K]x[K] and its result lands in x[U] while x[K] keeps the prescribed values; known/unknown dofs are a mask and its complement; the Dirichlet vector is built by the duplicate-summing constructor; the orphan-node diagonal dominates every return; every SolverType has a branch and convergence flags are consumed; Newton-incremental values are subtracted before elimination. Genuine defects found are listed as known findings (Lagrange path with duplicated Dirichlet entries; unchecked Krylov convergence flag).",
+    "External solvers are trusted to solve the system they receive when they report convergence. Residual size and agreement between back-ends are not decided.",
+    "abstract interpretation over block selectors and mask/complement domain; must-pass-through; enum exhaustiveness; unused-result rule",
+    "DESIGN.md section 3, C04",
+)
+claim(
+    "C05", "proof",
+    "The four hand-written case tables of the time schemes (evaluation-point states, system-matrix weights, history right-hand side + system matrix, corrector) are interpreted per AlgoType branch into linear forms over (K,C,M) x (u_np1,u_n,v_n,a_n) with coefficients in Q(dt,beta,gamma,alpha). Decided by normal form, i.e. for every prior state, step size and parameter value: weights = derivatives of the evaluation states; A u - b == K u_t + C v_t + M a_t - F; corrector satisfies the documented update relations and the evaluation states are the documented evaluation points of the corrected state; the algebraic lemmas behind energy conservation (midpoint, Newmark 1/4-1/2) and decay (backward Euler); every AlgoType is handled; denominators cannot vanish on the accepted parameter ranges (three known findings: alpha=0 parabolic, beta=0 Newmark/HHT).",
+    "Assumes the linear solve (C04) and symmetric K, M (C02). Floating-point behaviour over many steps is not decided. Reference relations are the documented scheme definitions (Solvers.AlgoType docstrings, Hughes 1987).",
+    "AST -> linear forms with rational-function coefficients; identity by normal form",
+    "DESIGN.md section 3, C05",
+)
+claim(
+    "C07", "proof",
+    "Quadrature tables are read from the source as exact numbers (rationals, quadratic surds; 15-digit decimals converted exactly). Decided: every point inside the reference element (exact sign), weights sum to the reference measure, exactness on every monomial up to the computed degree >= documented order; the factory if/elif table folded over all ElemType x MatrixType pairs; exact integration of det J and x det J (measure, centroid) on straight-sided elements with symbolic vertices.",
+    "Rules typed as decimal literals are compared with the literal-precision tolerance 5e-14 (stated, not tuned). numpy's leggauss(n) is trusted to be the n-point Gauss-Legendre rule.",
+    "exact evaluation of tables in Q / Q(sqrt d); constant folding of the factory; polynomial support analysis of det J",
+    "DESIGN.md section 3, C07",
+)
